@@ -8,6 +8,8 @@
 (*   Hygiene    for such a text the result satisfies OutputText!Scan,      *)
 (*              except for the known deviation (a quote after a literal    *)
 (*              backslash, which escapeDoublequotes takes for escaped)     *)
+(*   Terminates the loop without a bound in the code (second flag pass) ends  *)
+(*              after at most Len + 1 rounds, on every text                *)
 (* Every text is exported with Pipeline(text) for the byte-for-byte        *)
 (* comparison with the real passes.                                        *)
 (***************************************************************************)
@@ -28,6 +30,9 @@ Balanced(s, i, depth) ==
 WellFormed(s) == Balanced(s, 1, 0)
 
 NoCrash == WellFormed(t) => Pipeline(t) # "CRASH"
+
+\* C19 at design level: the unbounded loop of the flag pass ends after at most Len + 1 rounds, on EVERY text
+Terminates == LET u == SpaceClassVT(HexBackslashes(EscapeQuotes(t))) IN StripFlagsRuns(u) <= Len(u) + 1
 
 OT == INSTANCE OutputText
 \* the known deviation: a quote preceded by an even, non-zero number of backslashes
